@@ -1,24 +1,10 @@
 (* MsgRoundTrip.v — a printed message parses back to the message (C04): the
    header line, the item, the terminator; token level here, characters below. *)
-From Secs Require Import Ast FloatProofs Fill Utf8 Msg WireSpec WireLemmas WireValues HeaderProofs WireEnc WireDec MsgProofs AstProofs FillProofs FillCompose PrintProofs.
+From Secs Require Import Ast FloatProofs FloatRound Fill Utf8 Msg WireSpec WireLemmas WireValues HeaderProofs WireEnc WireDec MsgProofs AstProofs FillProofs FillCompose PrintProofs.
 From Secs Require Import Lexer Parser SmlNumbers SmlProofs LexProofs ParseProofs LayoutProofs OffsetProofs TokenProofs AsciiTokens TokenTrees LexPrinted AsciiLex LexTrees.
 Open Scope Z_scope.
 
 Definition sf_text (m : msg) : bytes := [x53] ++ fmt_int (m_stream m) ++ [x46] ++ fmt_int (m_function m).
-
-(* the tokens of the printed form of a message *)
-Definition msg_tokens (m : msg) : list token :=
-  [mk TStreamFunction (sf_text m) 0] ++
-  (if m_wbit m =? 1 then [mk TWaitBit [x57] 0] else if m_wbit m =? 2 then [mk TWaitBit (B"[W]"%string) 0] else []) ++
-  [mk TDirection (m_dir m) 0] ++
-  (match m_name m with [] => [] | n => [mk TMsgName n 0] end) ++
-  (match m_item m with IEmpty => [] | it => item_tokens it end) ++
-  [mk TMsgEnd [x2e] 0].
-
-(* a message as the SML parser can return it *)
-Definition sml_msg (m : msg) : Prop :=
-  msg_ok m = true /\ m_sid m = -1 /\ m_sys m = [x00; x00; x00; x00] /\
-  (m_item m = IEmpty \/ printable (m_item m)).
 
 Lemma fmt_int_nonneg n : 0 <= n -> fmt_int n = fmt_unsigned 10 n.
 Proof. intro H. unfold fmt_int. destruct (Z.ltb_spec n 0); [lia|reflexivity]. Qed.
@@ -46,8 +32,24 @@ Proof.
   try (intro Hw; match goal with X : (m_wbit m =? 1) && _ = false |- _ => rewrite Hw in X; cbn [Z.eqb Pos.eqb andb] in X; exact X end).
 Qed.
 
-Section MsgTokens.
+
+Section Oracles.
 Variable floats : float_oracle.
+Variable fl : nat -> Z -> bytes.
+
+(* the tokens of the printed form of a message *)
+Definition msg_tokens (m : msg) : list token :=
+  [mk TStreamFunction (sf_text m) 0] ++
+  (if m_wbit m =? 1 then [mk TWaitBit [x57] 0] else if m_wbit m =? 2 then [mk TWaitBit (B"[W]"%string) 0] else []) ++
+  [mk TDirection (m_dir m) 0] ++
+  (match m_name m with [] => [] | n => [mk TMsgName n 0] end) ++
+  (match m_item m with IEmpty => [] | it => item_tokens fl it end) ++
+  [mk TMsgEnd [x2e] 0].
+
+(* a message as the SML parser can return it *)
+Definition sml_msg (m : msg) : Prop :=
+  msg_ok m = true /\ m_sid m = -1 /\ m_sys m = [x00; x00; x00; x00] /\
+  (m_item m = IEmpty \/ (printable (m_item m) /\ scans floats fl (m_item m) /\ canon 0 (vars (m_item m)))).
 
 Definition with_toks (st : pstate) (l : list token) : pstate :=
   {| toks := l; names := names st; ecount := ecount st; errs := errs st; warns := warns st; msgs := msgs st; crashed := crashed st |}.
@@ -61,7 +63,7 @@ Proof.
   unfold msg_tokens in Ht. rewrite <- !app_assoc in Ht.
   set (wt := if m_wbit m =? 1 then [mk TWaitBit [x57] 0] else if m_wbit m =? 2 then [mk TWaitBit (B"[W]"%string) 0] else []) in *.
   set (nt := match m_name m with [] => [] | n => [mk TMsgName n 0] end) in *.
-  set (it := match m_item m with IEmpty => [] | t => item_tokens t end) in *.
+  set (it := match m_item m with IEmpty => [] | t => item_tokens fl t end) in *.
   cbn [app] in Ht.
   unfold parse_message.
   (* the stream/function token *)
@@ -73,55 +75,55 @@ Proof.
   set (st2 := advance (reset_msg_scope st)).
   assert (T2 : toks st2 = wt ++ mk TDirection (m_dir m) 0 :: nt ++ it ++ mk TMsgEnd [x2e] 0 :: rest).
   { subst st2. unfold advance. cbn [toks reset_msg_scope]. rewrite Ht. reflexivity. }
-  assert (Q2 : names st2 = [] /\ errs st2 = errs st /\ warns st2 = warns st /\ msgs st2 = msgs st /\ crashed st2 = crashed st) by (repeat split).
+  assert (Q2 : names st2 = [] /\ ecount st2 = 0 /\ errs st2 = errs st /\ warns st2 = warns st /\ msgs st2 = msgs st /\ crashed st2 = crashed st) by (repeat split).
   clearbody st2. clear Hp1 Ht.
   (* the wait bit *)
   set (W := if typ_is (peek st2) TWaitBit then _ else _).
   assert (HW : exists st5, W = (m_wbit m, st5) /\
              toks st5 = mk TDirection (m_dir m) 0 :: nt ++ it ++ mk TMsgEnd [x2e] 0 :: rest /\
-             names st5 = [] /\ errs st5 = errs st /\ warns st5 = warns st /\ msgs st5 = msgs st /\ crashed st5 = crashed st).
-  { subst W wt. destruct Q2 as (N1 & N2 & N3 & N4 & N5).
+             names st5 = [] /\ ecount st5 = 0 /\ errs st5 = errs st /\ warns st5 = warns st /\ msgs st5 = msgs st /\ crashed st5 = crashed st).
+  { subst W wt. destruct Q2 as (N1 & N0 & N2 & N3 & N4 & N5).
     assert (Hw : m_wbit m = 0 \/ m_wbit m = 1 \/ m_wbit m = 2) by lia.
     destruct Hw as [Hw|[Hw|Hw]]; rewrite Hw in *; cbn [Z.eqb Pos.eqb app] in T2; unfold peek; rewrite T2; cbn [typ_is t_typ mk t_val].
     - exists st2. repeat split; assumption.
     - change (bytes_eqb [x57] [x57]) with true. cbv iota.
-      rewrite (Fodd eq_refl). exists (advance st2). split; [reflexivity|]. unfold advance. cbn [toks names errs warns msgs crashed]. rewrite T2. repeat split; assumption.
+      rewrite (Fodd eq_refl). exists (advance st2). split; [reflexivity|]. unfold advance. cbn [toks names ecount errs warns msgs crashed]. rewrite T2. repeat split; assumption.
     - change (bytes_eqb (B"[W]"%string) [x57]) with false. change (bytes_eqb (B"[W]"%string) (B"[W]"%string)) with true. cbv iota.
-      exists (advance st2). split; [reflexivity|]. unfold advance. cbn [toks names errs warns msgs crashed]. rewrite T2. repeat split; assumption. }
+      exists (advance st2). split; [reflexivity|]. unfold advance. cbn [toks names ecount errs warns msgs crashed]. rewrite T2. repeat split; assumption. }
   destruct HW as (st5 & -> & T5 & N5). clear T2 Q2. clearbody wt.
   (* the direction *)
   assert (Hp5 : peek st5 = mk TDirection (m_dir m) 0) by (unfold peek; rewrite T5; reflexivity).
   rewrite Hp5. cbn [typ_is t_typ mk t_val].
   set (st6 := advance st5).
   assert (T6 : toks st6 = nt ++ it ++ mk TMsgEnd [x2e] 0 :: rest) by (subst st6; unfold advance; cbn [toks]; rewrite T5; reflexivity).
-  assert (N6 : names st6 = [] /\ errs st6 = errs st /\ warns st6 = warns st /\ msgs st6 = msgs st /\ crashed st6 = crashed st) by exact N5.
+  assert (N6 : names st6 = [] /\ ecount st6 = 0 /\ errs st6 = errs st /\ warns st6 = warns st /\ msgs st6 = msgs st /\ crashed st6 = crashed st) by exact N5.
   clearbody st6. clear Hp5 T5 N5.
   (* the first token of what follows the name: '<' or the terminator *)
   assert (Hfirst : exists t0 tl0, it ++ mk TMsgEnd [x2e] 0 :: rest = t0 :: tl0 /\ (t_typ t0 = TLAB \/ t_typ t0 = TMsgEnd)).
-  { subst it. destruct Hitem as [E|Hp]; [rewrite E; eexists; eexists; split; [reflexivity|right; reflexivity]|].
+  { subst it. destruct Hitem as [E|[Hp _]]; [rewrite E; eexists; eexists; split; [reflexivity|right; reflexivity]|].
     destruct (m_item m) as [xs|n|k w ys| | |] eqn:Ei; cbn [printable] in Hp; try contradiction;
       eexists; eexists; (split; [reflexivity|left; reflexivity]). }
   destruct Hfirst as (t0 & tl0 & E0 & Ht0).
   (* the name *)
   set (N := if typ_is (peek st6) TMsgName then _ else _).
   assert (HN : exists st7, N = (m_name m, st7) /\ toks st7 = it ++ mk TMsgEnd [x2e] 0 :: rest /\
-             names st7 = [] /\ errs st7 = errs st /\ warns st7 = warns st /\ msgs st7 = msgs st /\ crashed st7 = crashed st).
+             names st7 = [] /\ ecount st7 = 0 /\ errs st7 = errs st /\ warns st7 = warns st /\ msgs st7 = msgs st /\ crashed st7 = crashed st).
   { subst N nt. destruct (m_name m) as [|c nm] eqn:En.
     - cbn [app] in T6. unfold peek. rewrite T6, E0.
       assert (Hnn : typ_is t0 TMsgName = false) by (unfold typ_is; destruct Ht0 as [-> | ->]; reflexivity).
       rewrite Hnn. exists st6. rewrite <- E0. repeat split; try apply N6; exact T6.
     - cbn [app] in T6. unfold peek. rewrite T6. cbn [typ_is t_typ mk t_val].
-      exists (advance st6). split; [reflexivity|]. unfold advance. cbn [toks names errs warns msgs crashed]. rewrite T6. repeat split; apply N6. }
+      exists (advance st6). split; [reflexivity|]. unfold advance. cbn [toks names ecount errs warns msgs crashed]. rewrite T6. repeat split; apply N6. }
   destruct HN as (st7 & -> & T7 & N7). clear T6 N6. clearbody nt.
   (* the item, or the terminator right away *)
   set (I := if typ_is (peek st7) TMsgEnd then _ else _).
   assert (HI : exists st8, I = (Some (m_item m), st8) /\ toks st8 = mk TMsgEnd [x2e] 0 :: rest /\
              errs st8 = errs st /\ warns st8 = warns st /\ msgs st8 = msgs st /\ crashed st8 = crashed st).
-  { subst I it. destruct N7 as (M1 & M2 & M3 & M4 & M5). destruct Hitem as [E|Hp].
+  { subst I it. destruct N7 as (M1 & M0 & M2 & M3 & M4 & M5). destruct Hitem as [E|[Hp [Hsc Hcan]]].
     - rewrite E in *. cbn [app] in T7. unfold peek. rewrite T7. cbn [typ_is t_typ mk].
       exists st7. repeat split; assumption.
     - assert (Hne : m_item m <> IEmpty) by (intro E; rewrite E in Hp; exact Hp).
-      assert (Eit : match m_item m with IEmpty => [] | t => item_tokens t end = item_tokens (m_item m)).
+      assert (Eit : match m_item m with IEmpty => [] | t => item_tokens fl t end = item_tokens fl (m_item m)).
       { destruct (m_item m); reflexivity. }
       rewrite Eit in *.
       assert (Hpk : peek st7 = t0) by (unfold peek; rewrite T7, E0; reflexivity). rewrite Hpk.
@@ -130,8 +132,9 @@ Proof.
       assert (Hn1 : typ_is t0 TMsgEnd = false) by (unfold typ_is; rewrite Ht0'; reflexivity).
       assert (Hn2 : typ_is t0 TLAB = true) by (unfold typ_is; rewrite Ht0'; reflexivity).
       rewrite Hn1, Hn2.
-      destruct (item_parses_back floats (m_item m) st7 (mk TMsgEnd [x2e] 0 :: rest) Hp) as [st8 [E8 [T8 [Ee [Ew [Em _]]]]]].
+      destruct (item_parses_back floats fl (m_item m) st7 (mk TMsgEnd [x2e] 0 :: rest) Hp Hsc) as [st8 [E8 [T8 [Ee [Ew [Em _]]]]]].
       { intros n _. unfold known_name. rewrite M1. reflexivity. }
+      { rewrite M0. exact Hcan. }
       { exact T7. }
       exists st8. split; [exact E8|]. repeat split; try congruence.
       pose proof (proj1 (ext_parse_item_list floats (S (length (toks st7)))) st7) as Hext. rewrite E8 in Hext. cbn [snd] in Hext.
@@ -150,7 +153,6 @@ Proof.
   eexists. split; [reflexivity|]. unfold add_msg, advance. cbn [toks errs warns msgs crashed]. rewrite T8. cbn [tl].
   repeat split; congruence.
 Qed.
-End MsgTokens.
 
 Lemma msg_tokens_length m : (2 <= length (msg_tokens m))%nat.
 Proof.
@@ -159,7 +161,7 @@ Proof.
 Qed.
 
 (* several messages in one text, up to EOF *)
-Theorem msgs_parse_back floats : forall ms f st eof,
+Theorem msgs_parse_back : forall ms f st eof,
   Forall sml_msg ms -> t_typ eof = TEOF -> toks st = flat_map msg_tokens ms ++ [eof] ->
   (length (toks st) < f)%nat ->
   let st' := parse_loop floats f st in
@@ -173,13 +175,15 @@ Proof.
     assert (Hpk : typ_is (peek st) TEOF = false).
     { unfold peek. rewrite Ht. unfold msg_tokens. cbn [app]. reflexivity. }
     rewrite Hpk.
-    destruct (msg_parses_back floats m st (flat_map msg_tokens ms ++ [eof]) Hm Ht) as [st1 [E [T1 [E1 [W1 [M1 C1]]]]]].
+    destruct (msg_parses_back m st (flat_map msg_tokens ms ++ [eof]) Hm Ht) as [st1 [E [T1 [E1 [W1 [M1 C1]]]]]].
     rewrite E.
     assert (Hf1 : (length (toks st1) < f)%nat).
     { rewrite T1. rewrite Ht in Hf. rewrite app_length in Hf. pose proof (msg_tokens_length m). lia. }
     destruct (IH f st1 eof Hrest He T1 Hf1) as (A1 & A2 & A3 & A4 & A5).
     cbv zeta. rewrite A1, A2, A3, A4, A5, M1, E1, W1, C1, <- app_assoc. repeat split; reflexivity.
 Qed.
+
+End Oracles.
 
 (* ---------- characters: the header line ---------- *)
 
@@ -266,6 +270,7 @@ End HeaderLex.
 
 Section MsgLex.
 Variable alnum : list Z.
+Variable floats : float_oracle.
 Variable fl : nat -> Z -> bytes.
 
 Definition msg_text (m : msg) : bytes := render fl (msg_print m).
@@ -287,7 +292,7 @@ Proof.
       PT (indent 0 ++ [x3c; x4c] ++ (if existsb is_list_var zs then [] else [x5b] ++ fmt_int (Z.of_nat (length zs)) ++ [x5d]) ++ [x0a])
       :: flat_map (child_pieces 0) zs ++ [PT (indent 0 ++ [x3e])]) by (subst zs; reflexivity).
     rewrite E, render_cons. cbn [indent app]. eexists. reflexivity.
-  - destruct Hp as (Hk & _). rewrite (print_leaf_text fl 0 k w ys Hk). unfold leaf_text. destruct ys; cbn [app]; eexists; reflexivity.
+  - rewrite (print_leaf_text fl 0 k w ys). unfold leaf_text. destruct ys; cbn [app]; eexists; reflexivity.
   - destruct s; eexists; reflexivity.
   - eexists. reflexivity.
 Qed.
@@ -295,9 +300,9 @@ Qed.
 Definition after_end_ok (r : bytes) : Prop :=
   match r with d :: _ => is_digit d = false /\ byte_eqb d x2e = false | [] => True end.
 
-Theorem lexes_msg m r off : sml_msg m ->
-  (m_item m = IEmpty \/ lexable (m_item m)) -> (m_name m = [] \/ name_lexes alnum (m_name m)) -> after_end_ok r ->
-  exists ts, lexes alnum LHeader (msg_text m ++ r) off ts LHeader r (off + zlen (msg_text m)) /\ map zoff ts = msg_tokens m.
+Theorem lexes_msg m r off : sml_msg floats fl m ->
+  (m_item m = IEmpty \/ lexable alnum fl (m_item m)) -> (m_name m = [] \/ name_lexes alnum (m_name m)) -> after_end_ok r ->
+  exists ts, lexes alnum LHeader (msg_text m ++ r) off ts LHeader r (off + zlen (msg_text m)) /\ map zoff ts = msg_tokens fl m.
 Proof.
   intros (Hok & Hsid & Hsys & Hitem) Hlex Hname Hr.
   destruct (msg_ok_facts m Hok) as (Fname & Fs & Ff & Fodd & Fw & Fdir).
@@ -308,14 +313,14 @@ Proof.
       try (rewrite render_cons, render_app; cbn [render flat_map]; rewrite ?app_nil_r, <- !app_assoc; reflexivity).
     cbn [render flat_map]. rewrite ?app_nil_r, <- ?app_assoc. reflexivity. }
   assert (Htail : forall o, exists t2, lexes alnum LHeader (tailtext ++ r) o t2 LHeader r (o + zlen tailtext) /\
-                    map zoff t2 = (match m_item m with IEmpty => [] | it => item_tokens it end) ++ [mk TMsgEnd [x2e] 0]).
-  { intro o. subst tailtext. destruct Hitem as [E|Hp].
+                    map zoff t2 = (match m_item m with IEmpty => [] | it => item_tokens fl it end) ++ [mk TMsgEnd [x2e] 0]).
+  { intro o. subst tailtext. destruct Hitem as [E|[Hp _]].
     - rewrite E. cbn [app]. eexists. split; [apply lexes_emit; apply step_header_end|reflexivity].
     - assert (Hne : m_item m <> IEmpty) by (intro E; rewrite E in Hp; exact Hp).
       destruct Hlex as [E|Hl]; [congruence|].
       destruct (m_item m) as [xs|n|k w ys| | |] eqn:Ei; try (cbn [printable] in Hp; contradiction).
       all: rewrite <- app_assoc; cbn [app].
-      all: match goal with |- context [item_tokens ?it] =>
+      all: match goal with |- context [item_tokens fl ?it] =>
              destruct (lexes_item alnum fl it Hp Hl 0%nat (x0a :: x2e :: r) o) as [t1 [L1 Z1]];
              destruct (item_text_starts it 0 Hp eq_refl) as [s0 Es] end.
       all: unfold print_item; rewrite Es in *; cbn [app] in L1 |- *.
@@ -387,14 +392,14 @@ Proof.
 Qed.
 
 Definition msg_good (m : msg) : Prop :=
-  sml_msg m /\ (m_item m = IEmpty \/ lexable (m_item m)) /\ (m_name m = [] \/ name_lexes alnum (m_name m)).
+  sml_msg floats fl m /\ (m_item m = IEmpty \/ lexable alnum fl (m_item m)) /\ (m_name m = [] \/ name_lexes alnum (m_name m)).
 
 (* several printed messages, each followed by a line feed *)
 Definition msgs_text (ms : list msg) : bytes := flat_map (fun m => msg_text m ++ [x0a]) ms.
 
 Lemma lexes_msgs : forall ms off, Forall msg_good ms ->
   exists ts, lexes alnum LHeader (msgs_text ms) off ts LHeader [] (off + zlen (msgs_text ms)) /\
-             map zoff ts = flat_map msg_tokens ms.
+             map zoff ts = flat_map (msg_tokens fl) ms.
 Proof.
   induction ms as [|m ms IH]; intros off Hg.
   - exists []. split; [|reflexivity]. unfold msgs_text. cbn [flat_map]. replace (off + zlen []) with off by (unfold zlen; cbn [length]; lia). apply lexes_refl.
@@ -416,14 +421,14 @@ End MsgLex.
 Lemma zoff_typ t ty : typ_is (zoff t) ty = typ_is t ty.
 Proof. reflexivity. Qed.
 
-Lemma no_comment_tokens : forall t, Forall (fun k => typ_is k TComment = false) (item_tokens t).
+Lemma no_comment_tokens fl : forall t, Forall (fun k => typ_is k TComment = false) (item_tokens fl t).
 Proof.
   induction t as [xs IH|n|k w ys|v|n mn mx|] using item_ind'; try (cbn [item_tokens]; apply Forall_nil).
   - cbn [item_tokens app]. constructor; [reflexivity|]. constructor; [reflexivity|].
     apply Forall_app. split; [destruct (existsb is_list_var xs); repeat constructor|].
     apply Forall_app. split; [|repeat constructor].
     induction IH as [|c cs Hc _ IHcs]; [constructor|]. cbn [flat_map]. apply Forall_app. split; [|exact IHcs].
-    destruct c; try exact Hc. repeat constructor.
+    destruct c; try exact Hc. destruct (is_ellipsis n); repeat constructor.
   - unfold item_tokens, leaf_tokens. cbn [app]. constructor; [reflexivity|]. constructor; [reflexivity|]. constructor; [reflexivity|].
     apply Forall_app. split; [|repeat constructor].
     induction ys as [|y ys IHy]; [constructor|]. cbn [map]. constructor; [destruct y as [v|n]; [destruct k|]; reflexivity|exact IHy].
@@ -436,7 +441,7 @@ Proof.
     destruct ((mn =? 0) && (mx =? -1)); [constructor|]. destruct (mn =? mx); [repeat constructor|]. destruct (mx =? -1); repeat constructor.
 Qed.
 
-Lemma msg_tokens_no_comment m : Forall (fun k => typ_is k TComment = false) (msg_tokens m).
+Lemma msg_tokens_no_comment fl m : Forall (fun k => typ_is k TComment = false) (msg_tokens fl m).
 Proof.
   unfold msg_tokens. repeat (apply Forall_app; split); repeat constructor.
   - destruct (m_wbit m =? 1); [repeat constructor|]. destruct (m_wbit m =? 2); repeat constructor.
@@ -449,12 +454,12 @@ Proof. induction 1 as [|x l Hx _ IH]; [reflexivity|]. cbn. rewrite Hx, IH. refle
 
 (* the end-to-end statement: printing messages and parsing the text gives the
    messages back, with no error and no warning *)
-Theorem print_parse_messages alnum floats fl ms : Forall (msg_good alnum) ms ->
+Theorem print_parse_messages alnum floats fl ms : Forall (msg_good alnum floats fl) ms ->
   let r := sml_parse alnum floats (msgs_text fl ms) in
   r_msgs r = ms /\ r_errs r = [] /\ r_warns r = [] /\ r_crashed r = false.
 Proof.
   intro Hg. set (text := msgs_text fl ms).
-  destruct (lexes_msgs alnum fl ms 0 Hg) as [ts [[k Hk] Z0]]. fold text in Hk.
+  destruct (lexes_msgs alnum floats fl ms 0 Hg) as [ts [[k Hk] Z0]]. fold text in Hk.
   (* the token stream *)
   set (eof := mk TEOF (B"EOF"%string) (0 + zlen text)).
   assert (Hlex : lex_all alnum text = ts ++ [eof]).
@@ -471,10 +476,10 @@ Proof.
   set (f := S (length (ts ++ [eof]))).
   pose (g := fun _ : token => 0).
   assert (Hg0 : g zero_tok = 0) by reflexivity.
-  assert (HtR : toks (R g st0) = flat_map msg_tokens ms ++ [zoff eof]).
+  assert (HtR : toks (R g st0) = flat_map (msg_tokens fl) ms ++ [zoff eof]).
   { unfold R, st0. cbn [toks]. rewrite map_app. change (map (re g) ts) with (map zoff ts). rewrite Z0. reflexivity. }
-  assert (Hms : Forall sml_msg ms) by (clear -Hg; induction Hg as [|m ms (H & _) _ IH]; constructor; assumption).
-  destruct (msgs_parse_back floats ms f (R g st0) (zoff eof) Hms eq_refl HtR) as (A1 & A2 & A3 & A4 & _).
+  assert (Hms : Forall (sml_msg floats fl) ms) by (clear -Hg; induction Hg as [|m ms (H & _) _ IH]; constructor; assumption).
+  destruct (msgs_parse_back floats fl ms f (R g st0) (zoff eof) Hms eq_refl HtR) as (A1 & A2 & A3 & A4 & _).
   { subst f. unfold R, st0. cbn [toks]. rewrite map_length. lia. }
   rewrite (parse_loop_R g Hg0 floats f st0) in A1, A2, A3, A4.
   unfold R in A1, A2, A3, A4. cbn [msgs errs warns crashed] in A1, A2, A3, A4.
@@ -482,22 +487,24 @@ Proof.
   apply map_eq_nil in A2. apply map_eq_nil in A3. rewrite A2, A3. cbn [map]. repeat split; assumption.
 Qed.
 
-(* premises are satisfiable: two messages, one with a nested item, one header-only *)
+(* premises are satisfiable: two messages, one with a nested item that has
+   named variables and two ellipses (printed as "...", numbered by the parser), one header-only *)
 Example print_parse_example :
   let m1 := {| m_name := B"Report"%string; m_stream := 6; m_function := 11; m_wbit := 1; m_dir := B"H<-E"%string;
                m_item := IList [ILeaf KUint 4 [SX (B"dataid"%string); SV 7]; IVar (B"v"%string);
-                                IList [ILeaf KBin 1 [SV 255]; ILeaf KBool 1 [SV 1]; IAscii (B"say " ++ [x22] ++ B"hi" ++ [x22; x0a])%string; IAsciiVar (B"txt"%string) 1 10; IAscii []]];
+                                IList [ILeaf KBin 1 [SV 255]; ILeaf KBool 1 [SV 1]; IAscii (B"say " ++ [x22] ++ B"hi" ++ [x22; x0a])%string; IAsciiVar (B"txt"%string) 1 10; IAscii []; IVar (B"...[0]"%string)];
+                                IVar (B"...[1]"%string)];
                m_sid := -1; m_sys := [x00; x00; x00; x00] |} in
   let m2 := {| m_name := []; m_stream := 1; m_function := 2; m_wbit := 0; m_dir := B"H<->E"%string;
                m_item := IEmpty; m_sid := -1; m_sys := [x00; x00; x00; x00] |} in
-  forall alnum, Forall (msg_good alnum) [m1; m2].
+  forall alnum floats fl, Forall (msg_good alnum floats fl) [m1; m2].
 Proof.
-  intros m1 m2 alnum. constructor; [|constructor; [|constructor]].
+  intros m1 m2 alnum floats fl. constructor; [|constructor; [|constructor]].
   - split; [|split].
     + split; [reflexivity|]. split; [reflexivity|]. split; [reflexivity|]. right.
       cbn [m_item m1 printable]. repeat split; try reflexivity; try discriminate; try (left; reflexivity);
         try (right; left; reflexivity); try (right; right; left; reflexivity); repeat constructor; cbn; lia.
-    + right. cbn [m_item m1 lexable]. repeat split; repeat constructor; try reflexivity; cbn; lia.
+    + right. cbn [m_item m1 lexable]. repeat (first [intros He; try (vm_compute in He; discriminate He) | split]); repeat constructor; try reflexivity; cbn; lia.
     + right. intros r off. reflexivity.
   - split; [|split].
     + split; [reflexivity|]. split; [reflexivity|]. split; [reflexivity|]. left. reflexivity.
@@ -508,7 +515,7 @@ Qed.
 (* the concatenation law (C19) for printed texts: parsing the printed form of
    one sequence followed by the printed form of another returns the messages of
    the first followed by the messages of the second, each as parsed alone *)
-Theorem concat_printed alnum floats fl ms1 ms2 : Forall (msg_good alnum) ms1 -> Forall (msg_good alnum) ms2 ->
+Theorem concat_printed alnum floats fl ms1 ms2 : Forall (msg_good alnum floats fl) ms1 -> Forall (msg_good alnum floats fl) ms2 ->
   r_msgs (sml_parse alnum floats (msgs_text fl ms1 ++ msgs_text fl ms2)) =
     r_msgs (sml_parse alnum floats (msgs_text fl ms1)) ++ r_msgs (sml_parse alnum floats (msgs_text fl ms2)) /\
   r_errs (sml_parse alnum floats (msgs_text fl ms1 ++ msgs_text fl ms2)) = [] /\
@@ -521,4 +528,21 @@ Proof.
   destruct (print_parse_messages alnum floats fl ms1 H1) as (A1 & _).
   destruct (print_parse_messages alnum floats fl ms2 H2) as (A2 & _).
   cbv zeta in *. rewrite A, A1, A2, B', C. repeat split; reflexivity.
+Qed.
+
+(* the float hypotheses are satisfiable: with the oracles answering "1.5" for
+   the float64 bit pattern of 1.5 (as strconv does), an F8 item holding it
+   meets [scans] and [lexable] *)
+Example float_premises :
+  let v := 4609434218613702656 in                       (* 0x3FF8000000000000 = 1.5 *)
+  let fl := fun (_ : nat) (_ : Z) => B"1.5"%string in
+  let floats := [(B"1.5"%string, (0, 1069547520, 0, v))] in
+  let t := ILeaf KFloat 8 [SV v] in
+  printable t /\ scans floats fl t /\ forall alnum, lexable alnum fl t.
+Proof.
+  intros v fl floats t. split; [|split].
+  - cbn [printable t]. repeat split; try reflexivity; [right; reflexivity|repeat constructor].
+  - cbn [scans t]. constructor; [|constructor]. split; [reflexivity|discriminate].
+  - intro alnum. cbn [lexable t]. constructor; [|constructor]. cbn [slot_lexable].
+    intros d r off [->|[->| ->]]; reflexivity.
 Qed.
